@@ -3,7 +3,7 @@
    Gen/KThermExpr (expression block of calculate_derivatives_thermal, get_branch_cp, wiring, switch threshold),
    Gen/KHooksHeat (circulation-pump thermal hook).  Hand model: C10/Model (thermal build_system_matrix etc.),
    tied by the exact correspondence of tools/props/c10.py. *)
-From Coq Require Import Reals Lra List Bool Arith ZArith String.
+From Coq Require Import Reals Lra Lia List Bool Arith ZArith String.
 From PP Require Import Kern.RBool Gen.KThermNp Gen.KThermNb Gen.KThermExpr Gen.KHooksHeat
                        C10.Spec C10.Model C10.Assembly C10.Proofs.
 Import ListNotations.
@@ -193,7 +193,7 @@ Example guards_satisfiable :
 Proof.
   split; [split; [reflexivity|repeat constructor]|]. split; [|split; [discriminate|now left]].
   intros r Hr. unfold dim in Hr. simpl in Hr.
-  do 8 (destruct r as [|r]; [vm_compute; reflexivity|]). exfalso. repeat apply Nat.succ_lt_mono in Hr. inversion Hr.
+  do 8 (destruct r as [|r]; [vm_compute; reflexivity|]). exfalso. lia.
 Qed.
 
 Example kernel_guards_satisfiable :
